@@ -9,7 +9,7 @@ def ParentsFirst (cfg : Cfg) : Prop :=
 
 theorem wellFormed_at {cfg : Cfg} (h : wellFormed cfg = true) (i : Nat) (c : QuotaCfg)
     (hi : cfg.quotas[i]? = some c) :
-    0 < c.max ∧ 0 < c.win ∧ c.win % nsPerSec = 0 ∧ ∀ p, c.parent = some p → p < i := by
+    0 < c.win ∧ c.win % nsPerSec = 0 ∧ ∀ p, c.parent = some p → p < i := by
   unfold wellFormed at h
   rw [List.all_eq_true] at h
   have hlt : i < cfg.quotas.length := by
@@ -17,13 +17,13 @@ theorem wellFormed_at {cfg : Cfg} (h : wellFormed cfg = true) (i : Nat) (c : Quo
     exact this.1
   have := h i (List.mem_range.mpr hlt)
   simp only [hi, Bool.and_eq_true, decide_eq_true_eq] at this
-  obtain ⟨⟨⟨h1, h2⟩, h3⟩, h4⟩ := this
-  refine ⟨h1, h2, h3, ?_⟩
+  obtain ⟨⟨h2, h3⟩, h4⟩ := this
+  refine ⟨h2, h3, ?_⟩
   intro p hp
   simpa [hp] using h4
 
 theorem wellFormed_parents {cfg : Cfg} (h : wellFormed cfg = true) : ParentsFirst cfg :=
-  fun i c p hi hp => (wellFormed_at h i c hi).2.2.2 p hp
+  fun i c p hi hp => (wellFormed_at h i c hi).2.2 p hp
 
 theorem chainFuel_le (cfg : Cfg) (hpf : ParentsFirst cfg) : ∀ (n : Nat) (q : QId) (p : QId × QuotaCfg),
     p ∈ chainFuel cfg n q → p.1 ≤ q := by
@@ -97,8 +97,65 @@ theorem nodupB_cons (x : Nat) (xs : List Nat) (h : nodupB (x :: xs) = true) : x 
 
 /-! ### One API call -/
 
-theorem apiStep_rel (cfg : Cfg) (hpf : ParentsFirst cfg) (st : St) (ss : SSt) (o : Op) (hrel : LevelsRel cfg st ss)
+/-- Every pending amount is what the request counts, at that level, with the headers of its arrival. -/
+def AmtInv (cfg : Cfg) (st : St) (arr : List (Rid × Hdrs)) : Prop :=
+  ∀ (k : Key) (c : QuotaCfg) (r : Rid) (amt : Nat), cfg.quotas[k.1]? = some c →
+    (st.at k).memo.lookup r = some (some amt) → ∃ h, arr.lookup r = some h ∧ amt = costOf c h
+
+theorem amtOk_of_inv (cfg : Cfg) (st : St) (arr : List (Rid × Hdrs)) (ch : List (QId × QuotaCfg)) (r : Rid) (h : Hdrs)
+    (hinv : AmtInv cfg st arr) (hc : ∀ h', arr.lookup r = some h' → h' = h) (hv : ∀ p ∈ ch, validPair cfg p) :
+    AmtOk st ch r h := by
+  intro p hp amt hl
+  obtain ⟨h', hl', ha⟩ := hinv (keyOf p h) p.2 r amt (hv p hp) hl
+  rw [hc h' hl'] at ha
+  exact ha
+
+/-- The arrivals seen so far, with the new one in front. -/
+def arrAfter (arr : List (Rid × Hdrs)) (o : Op) : List (Rid × Hdrs) :=
+  if o.kind == .inc || o.kind == .req then (o.r, o.h) :: arr else arr
+
+theorem incChain_amt (cfg : Cfg) (st : St) (arr : List (Rid × Hdrs)) (q : QId) (r t : Nat) (h : Hdrs)
+    (hinv : AmtInv cfg st arr) (hfresh : ∀ k, (st.at k).memo.lookup r = none) :
+    AmtInv cfg (incChain st (chain cfg q) r t h).1 ((r, h) :: arr) := by
+  intro k c r' amt hk hl
+  rcases incChain_entries r t h r' amt _ st k hl with h1 | ⟨h1, p, hp, h2, h3⟩
+  · have hne : r' ≠ r := by
+      intro e; subst e; rw [hfresh k] at h1; exact absurd h1 (by simp)
+    obtain ⟨h', hl', ha⟩ := hinv k c r' amt hk h1
+    have hb : (r' == r) = false := by simpa using hne
+    exact ⟨h', by simp [List.lookup_cons, hb, hl'], ha⟩
+  · subst h1
+    have hv : cfg.quotas[p.1]? = some p.2 := chain_valid cfg q p hp
+    have hk1 : k.1 = p.1 := by rw [← h2]; rfl
+    rw [hk1, hv] at hk
+    have := Option.some.inj hk
+    subst this
+    exact ⟨h, by simp, h3⟩
+
+theorem apiStep_amt (cfg : Cfg) (st : St) (arr : List (Rid × Hdrs)) (o : Op) (hinv : AmtInv cfg st arr)
     (hfresh : (o.kind = .inc ∨ o.kind = .req) → ∀ k, (st.at k).memo.lookup o.r = none) :
+    AmtInv cfg (apiStep cfg st o).1 (arrAfter arr o) := by
+  obtain ⟨kind, q, r, t, h⟩ := o
+  cases kind with
+  | inc => simpa [apiStep, arrAfter] using incChain_amt cfg st arr q r t h hinv (hfresh (Or.inl rfl))
+  | req =>
+    have h1 := incChain_amt cfg st arr q r t h hinv (hfresh (Or.inr rfl))
+    simp only [apiStep, limiter, arrAfter]
+    intro k c r' amt hk hl
+    exact h1 k c r' amt hk (allowedChain_entries r h r' _ _ _ k hl)
+  | allowed =>
+    simp only [apiStep, arrAfter]
+    intro k c r' amt hk hl
+    exact hinv k c r' amt hk (allowedChain_entries r h r' _ _ _ k hl)
+  | dec =>
+    simp only [apiStep, arrAfter]
+    intro k c r' amt hk hl
+    exact hinv k c r' amt hk (decChain_entries r h r' _ _ _ k hl)
+
+theorem apiStep_rel (cfg : Cfg) (hpf : ParentsFirst cfg) (st : St) (ss : SSt) (arr : List (Rid × Hdrs)) (o : Op)
+    (hrel : LevelsRel cfg st ss) (hamt : AmtInv cfg st arr)
+    (hfresh : (o.kind = .inc ∨ o.kind = .req) → ∀ k, (st.at k).memo.lookup o.r = none)
+    (hcons : o.kind = .allowed → ∀ h', arr.lookup o.r = some h' → h' = o.h) :
     LevelsRel cfg (apiStep cfg st o).1 (sStep cfg ss ⟨o, (apiStep cfg st o).2⟩) ∧
     (o.kind = .req → (apiStep cfg st o).2 = some (sInc ss (chain cfg o.q) o.t o.h).2) := by
   obtain ⟨kind, q, r, t, h⟩ := o
@@ -111,7 +168,8 @@ theorem apiStep_rel (cfg : Cfg) (hpf : ParentsFirst cfg) (st : St) (ss : SSt) (o
     exact (incChain_rel cfg r t h _ st ss hv hnd hrel (fun p _ => hfresh (Or.inl rfl) _)).1
   | allowed =>
     refine ⟨?_, fun hk => by simp at hk⟩
-    have := allowedChain_rel cfg r h _ st ss hv hrel
+    have hok := amtOk_of_inv cfg st arr _ r h hamt (hcons rfl) hv
+    have := allowedChain_rel cfg r h _ st ss hv hrel hok
     simp only [apiStep]
     cases hb : (allowedChain st (chain cfg q) r h).2 with
     | true => simpa [sStep, hb] using this
@@ -122,7 +180,9 @@ theorem apiStep_rel (cfg : Cfg) (hpf : ParentsFirst cfg) (st : St) (ss : SSt) (o
     exact decChain_rel cfg r h _ st ss hv hrel
   | req =>
     have hinc := (incChain_rel cfg r t h _ st ss hv hnd hrel (fun p _ => hfresh (Or.inr rfl) _)).1
-    have hall := allowedChain_rel cfg r h _ _ _ hv hinc
+    have hamt1 := incChain_amt cfg st arr q r t h hamt (hfresh (Or.inr rfl))
+    have hok := amtOk_of_inv cfg _ _ (chain cfg q) r h hamt1 (by intro h' hl; simp at hl; exact hl.symm) hv
+    have hall := allowedChain_rel cfg r h _ _ _ hv hinc hok
     have hverd := limiter_verdict cfg st ss _ r t h hv hnd hrel (fun p _ => hfresh (Or.inr rfl) _)
     simp only [apiStep, limiter]
     constructor
@@ -184,17 +244,44 @@ theorem fresh_step (cfg : Cfg) (st : St) (o : Op) (os : List Op)
 theorem sRun_cons (cfg : Cfg) (ss : SSt) (o : Obs) (h : History) :
     sRun cfg ss (o :: h) = sRun cfg (sStep cfg ss o) h := rfl
 
-theorem api_rel (cfg : Cfg) (hpf : ParentsFirst cfg) : ∀ (ops : List Op) (st : St) (ss : SSt),
-    LevelsRel cfg st ss → (∀ r ∈ opArr ops, ∀ k, (st.at k).memo.lookup r = none) → nodupB (opArr ops) = true →
+theorem consistent_step (cfg : Cfg) (st : St) (arr : List (Rid × Hdrs)) (o : Op) (os : List Op)
+    (h : consistentFrom arr (observe cfg st (o :: os)) = true) :
+    consistentFrom (arrAfter arr o) (observe cfg (apiStep cfg st o).1 os) = true ∧
+    (o.kind = .allowed → ∀ h', arr.lookup o.r = some h' → h' = o.h) := by
+  simp only [observe, consistentFrom] at h
+  unfold arrAfter
+  by_cases hk : (o.kind == .inc || o.kind == .req) = true
+  · simp only [hk, if_true] at h ⊢
+    refine ⟨h, ?_⟩
+    intro ha
+    rw [ha] at hk
+    simp at hk
+  · simp only [hk, Bool.false_eq_true, if_false, Bool.and_eq_true] at h ⊢
+    refine ⟨h.2, ?_⟩
+    intro _ h' hl
+    have := h.1
+    rw [hl] at this
+    simpa using this
+
+theorem api_rel (cfg : Cfg) (hpf : ParentsFirst cfg) : ∀ (ops : List Op) (st : St) (ss : SSt) (arr : List (Rid × Hdrs)),
+    LevelsRel cfg st ss → AmtInv cfg st arr →
+    (∀ r ∈ opArr ops, ∀ k, (st.at k).memo.lookup r = none) → nodupB (opArr ops) = true →
+    consistentFrom arr (observe cfg st ops) = true →
     LevelsRel cfg (apiFinal cfg st ops) (sRun cfg ss (observe cfg st ops)) := by
   intro ops
   induction ops with
-  | nil => intro st ss hrel _ _; exact hrel
+  | nil => intro st ss arr hrel _ _ _ _; exact hrel
   | cons o os ih =>
-    intro st ss hrel hfresh hnd
+    intro st ss arr hrel hamt hfresh hnd hcons
     obtain ⟨hf', hnd', hfo⟩ := fresh_step cfg st o os hfresh hnd
-    obtain ⟨hrel', _⟩ := apiStep_rel cfg hpf st ss o hrel hfo
-    simpa [observe, apiFinal, sRun_cons] using ih _ _ hrel' hf' hnd'
+    obtain ⟨hcons', hco⟩ := consistent_step cfg st arr o os hcons
+    obtain ⟨hrel', _⟩ := apiStep_rel cfg hpf st ss arr o hrel hamt hfo hco
+    have hamt' := apiStep_amt cfg st arr o hamt hfo
+    simpa [observe, apiFinal, sRun_cons] using ih _ _ _ hrel' hamt' hf' hnd' hcons'
+
+theorem AmtInv.init (cfg : Cfg) : AmtInv cfg St.init [] := by
+  intro k c r amt _ hl
+  simp [St.at_init, Lvl.init] at hl
 
 theorem init_fresh (ops : List Op) : ∀ r ∈ opArr ops, ∀ k, (St.init.at k).memo.lookup r = none := by
   intro r _ k; rfl
@@ -247,15 +334,15 @@ theorem sInc_spaced (cfg : Cfg) (hwin : ∀ (i : Nat) (c : QuotaCfg), cfg.quotas
     intro ss hv hs
     obtain ⟨a, c⟩ := ac
     have hac : cfg.quotas[a]? = some c := hv (a, c) (by simp)
-    have hup := ih (KMap.set ss (a, groupOf c h) (chargeWin c.win t (ss.at (a, groupOf c h))))
+    have hup := ih (KMap.set ss (a, groupOf c h) (chargeWin c.win t (costOf c h) (ss.at (a, groupOf c h))))
       (fun p hp => hv p (by simp [hp]))
-      (hs.set (a, groupOf c h) c hac _ (SpOk.charge (hwin a c hac) (hs (a, groupOf c h) c hac)))
+      (hs.set (a, groupOf c h) c hac _ (SpOk.charge (costOf c h) (hwin a c hac) (hs (a, groupOf c h) c hac)))
     rw [sInc_cons]
     split
     · exact hs
     · split
       · exact hup
-      · exact hup.set (a, groupOf c h) c hac _ (hup (a, groupOf c h) c hac).refundOk
+      · exact hup.set (a, groupOf c h) c hac _ ((hup (a, groupOf c h) c hac).refundOk (costOf c h))
 
 theorem sAdmit_spaced (cfg : Cfg) (T : Nat) (h : Hdrs) :
     ∀ (ch : List (QId × QuotaCfg)) (ss : SSt), (∀ p ∈ ch, validPair cfg p) → SpAll cfg T ss →
@@ -269,7 +356,7 @@ theorem sAdmit_spaced (cfg : Cfg) (T : Nat) (h : Hdrs) :
     have hac : cfg.quotas[a]? = some c := hv (a, c) (by simp)
     rw [sAdmit_cons]
     apply ih _ (fun p hp => hv p (by simp [hp]))
-    exact hs.set (a, groupOf c h) c hac _ (hs (a, groupOf c h) c hac).admitOk
+    exact hs.set (a, groupOf c h) c hac _ ((hs (a, groupOf c h) c hac).admitOk (costOf c h))
 
 theorem sStep_spaced (cfg : Cfg) (hwin : ∀ (i : Nat) (c : QuotaCfg), cfg.quotas[i]? = some c → c.win % nsPerSec = 0) (ss : SSt) (o : Obs)
     (hs : SpAll cfg o.op.t ss) : SpAll cfg o.op.t (sStep cfg ss o) := by
